@@ -250,9 +250,33 @@ def r18_2(ctx, rc):
                          ctx.prog.loc(F, F.node), key=key)
 
 
+def _is_bool_test(e):
+    """A recognised test that separates bool from every other class:
+    `<cls> == bool` / `<cls> is bool` (either order), isinstance(x, bool),
+    or the xor form `(c1 == bool) != (c2 == bool)`.  A test that lumps bool
+    together with other classes (e.g. `{c1, c2} == {bool, int}`) is not
+    one: it separates bool from int only."""
+    if isinstance(e, ast.Call) and isinstance(e.func, ast.Name) and \
+            e.func.id == 'isinstance' and len(e.args) == 2 and \
+            isinstance(e.args[1], ast.Name) and e.args[1].id == 'bool':
+        return True
+    if isinstance(e, ast.Compare) and len(e.ops) == 1:
+        l, r = e.left, e.comparators[0]
+        if isinstance(e.ops[0], (ast.Eq, ast.Is, ast.NotEq, ast.IsNot)):
+            if isinstance(r, ast.Name) and r.id == 'bool' and not \
+                    _mentions(l, 'bool'):
+                return True
+            if isinstance(l, ast.Name) and l.id == 'bool' and not \
+                    _mentions(r, 'bool'):
+                return True
+            if _is_bool_test(l) and _is_bool_test(r):
+                return True
+    return False
+
+
 def _bool_atom(lab):
     return isinstance(lab, tuple) and len(lab) == 4 and \
-        _mentions(lab[1], 'bool')
+        _is_bool_test(lab[1])
 
 
 def r18_3(ctx, rc):
